@@ -126,10 +126,11 @@ def ht_closer_units(order, kind, f, tier):
             "C17.closer.inv-A-preserved-at-an-arbitrary-bit", "C17.closer.inv-B-preserved-at-an-arbitrary-slot", "C17.closer.inv-C-preserved-at-an-arbitrary-pair",
             "C17.closer.every-entry-keeps-its-key-and-value", "C17.closer.no-entry-appears"]
     for i, tag in enumerate(tags):
-        unit("ht.closer.%s.o%d.f%d.%d" % (kind, order, f, i + 1), ["C17"], "units/ht.c", entry="h_ht_closer", tier=tier, solver="cadical", unwind=64, kind="proof",
+        # obligation 7 (Inv-C at an arbitrary pair, wide window) has not finished in 40 min in any run: best effort (undecided, never a verdict, unless it fails)
+        unit("ht.closer.%s.o%d.f%d.%d" % (kind, order, f, i + 1), ["C17"], "units/ht.c", entry="h_ht_closer", tier=tier, solver="cadical", unwind=64, kind="proof", best_effort=(i + 1 == 7),
              defines=["HT_ORDER=%d" % order, "HT_KIND=%d" % HT_KINDS[kind], "HT_F=%d" % f, "HT_ONLY=%d" % (i + 1)] + (["HT_WINDOW_WIDE=1"] if i + 1 in (4, 7) else []), shared_tags=True,
              bound="table order %d, free position %d (rotation symmetry: one position stands for all - assumption)" % (order, f),
-             functions=["find_closer_entry_<name> (order %d, %s keys)" % (order, kind)], expect_tags=[tag], timeout=2400, mem_gb=20, mem_budget_gb=13,
+             functions=["find_closer_entry_<name> (order %d, %s keys)" % (order, kind)], expect_tags=[tag], timeout=(600 if i + 1 == 7 else 2400), mem_gb=20, mem_budget_gb=13,
              assumes=["window-based invariant with ghost indices (universal generalisation)", "uninterpreted hash", "rotation symmetry of the table for the choice of the free position"])
 
 
@@ -456,11 +457,14 @@ PROPERTY_META["C17"] = {
                    "(lookup of an arbitrary second key unchanged, value most recently stored returned, refusal only when the add range of the key's home is full) "
                    "and to preserve the representation invariant, from EVERY table state satisfying the invariant, for orders 2 and 3 (uint32 keys) with an "
                    "uninterpreted hash function (so every collision pattern incl. wrap-around across the table end is covered). " + HARNESS_NOTE),
-    "level_note": ("Proved for table orders 2 and 3 only (order 4+ in the thorough tier as far as it finishes). NOT decided: orders >= 7 where insertion displaces entries "
-                   "(find_closer_entry is proved unreachable for orders <= 6 but its behaviour is not verified), string keys (hash_func_*_string, strcmp), "
-                   "the production orders 6 and 13, the routing-table sweep in router.c. Trusted: CBMC, SAT solver, the hash functions abstracted as uninterpreted."),
-    "explanation": "C17: finite-map contracts on hashtable_get/put/remove/create for small orders.",
-    "not_decided": ["table orders >= 4 (quick tier), >= 7 (displacement path) at all", "string-keyed instantiation", "router.c sweep while removing"],
+    "level_note": ("Quick tier: table orders 2 and 3 (uint32 keys), where the displacement path is proved unreachable, and the routing-table sweeps of router.c (rt.ownerdown / rt.bystander, 2-slot table). "
+                   "Thorough tier, order 7 (the smallest order where insertion displaces entries): find_closer_entry preserves the invariant with a hole and the view at arbitrary ghost indices (ht.closer.1-9, "
+                   "obligation 7 best effort), its exact effect is the contract of the stub (ht.closer.fx), and hashtable_put with that stub is checked for result, reachability of the new binding and its call-site "
+                   "obligations for one displacement step (ht.putd.m1.1/2); the invariant/view obligations through the displacement loop (ht.putd.m1.3-8, m2.4/6) are best effort: a counterexample was found for the "
+                   "unrepaired tree, the proofs on the repaired tree did not finish - so the end-to-end obligation for put at order >= 7 is NOT discharged. Also not decided: orders 4-6 and >= 8, string keys "
+                   "(hash_func_*_string, strcmp), one free position / home per unit (rotation symmetry assumed). Trusted: CBMC, SAT solver, the hash functions abstracted as uninterpreted / as an arbitrary table."),
+    "explanation": "C17: finite-map contracts on hashtable_get/put/remove/create (orders 2, 3), find_closer_entry and put with displacement (order 7, thorough), routing-table sweeps.",
+    "not_decided": ["table orders 4-6, >= 8; order 7 put: invariant through the displacement loop (best effort, undecided)", "string-keyed instantiation", "positions other than the one per unit (rotation symmetry assumed)"],
     "assumptions": ["hash function = arbitrary function into [0,2^order)", "stored values != (void*)-1 (used as 'absent' marker in the spec)"],
 }
 PROPERTY_META["C16"] = {
